@@ -24,12 +24,12 @@ CHUNK = 1000
 RUNS = {"quick": 0, "thorough": 0}  # sizes are fixed by PLAN below
 PLAN = {
     "quick": {
-        "tree": {(2, 2): 8000, (2, 3): 15000, (3, 2): 15000, (3, 3): 120000},
+        "tree": {(2, 2): 60000, (2, 3): 150000, (3, 2): 150000, (3, 3): 240000},
         "edge": {(4, 4): 20000, (3, 5): 20000, (5, 5): 16000},
         "owned_fraction": 0.25,
     },
     "thorough": {
-        "tree": {(2, 2): 80000, (2, 3): 150000, (3, 2): 150000, (3, 3): 1200000, (2, 4): 300000, (4, 2): 300000},
+        "tree": {(2, 2): 400000, (2, 3): 1500000, (3, 2): 1500000, (3, 3): 2400000, (2, 4): 1200000, (4, 2): 1200000},
         "edge": {(4, 4): 200000, (3, 5): 200000, (5, 5): 160000, (6, 6): 100000, (2, 7): 100000, (4, 6): 100000},
         "owned_fraction": 0.25,
     },
